@@ -8,13 +8,17 @@ RULE = ('seeded random histories: 1-4 generator scripts whose bodies start/kill/
         'through the current promise; weak references checked after gc.collect() at the end; plus the '
         'hand-written corpus (D10, D29, equal-deadline witnesses); plus a family in which 2-4 coroutines yield '
         'the SAME positive wait in the same frame and waiting ones are killed and at once started again '
-        '(from outside or by a controller body), each in turn, followed by frames past the deadline; plus small-scope exhaustive enumeration: every history of '
+        '(from outside or by a controller body), each in turn, followed by frames past the deadline; plus families with bodies that leave with an '
+        'exception while others are queued before and behind them (the caller goes on calling process, '
+        'queries and kills the raiser) and bodies that kill themselves mid-queue; plus small-scope exhaustive enumeration: every history of '
         '<= 4 (thorough: <= 6; three script families, one with two sleepers on the same deadline) operations from {start, kill} x {0, 1} and process '
         '{1/2 s, 1 s} over two generators that kill / restart each other and themselves.  Non-trivial: at '
         'least one body ran and at least one kill (top-level or in-body) succeeded; distinct by hash of '
         'the scenario text.')
-ASSUMPTIONS = ['generator bodies terminate, do not raise (they catch the exceptions of start/kill/state), '
-               'do not call process() themselves and yield None or numbers',
+ASSUMPTIONS = ['generator bodies terminate, catch the exceptions of their own start/kill/state calls, do not '
+               'call process() themselves and yield None or numbers; a body may leave with an exception '
+               '(Quit / SwitchWorld / errors): the coroutine is then over - TERMINATED and released as soon '
+               'as the aborted call has returned, its promise stays empty',
                'waits and dt are multiples of 1/8 s']
 TIE = ('correspondence check: the Lean model lean/DesperModel/Coro.lean and the real CoroutineProcessor '
        'run the same generated histories; compared: execution log of bodies, results of in-body and '
